@@ -1,10 +1,10 @@
 (* LegacySanityLf.v -- HAND-WRITTEN sanity check for the lock-free arena, compiled by sanity_f1.sh against a scratch
    copy of lockfree.rs WITHOUT the F1 repair; not expected to compile against the current source. *)
 From Lasso Require Import Base Arena ArenaProofs.
-From LassoGen Require Import GenPrelude GenIR GenIRLf GenTactics GenTacticsLf LockfreeGen.
+From LassoGen Require Import GenPrelude GenIR GenRequest GenIRLf GenTactics GenTacticsLf LockfreeGen.
 Open Scope N_scope.
 
-Theorem legacy_lf_store_str_eq : forall a s,
+Theorem legacy_lf_store_str_eq : forall a s, 2 * bucket_cap a <= ab_cap_max -> slen s <= ab_cap_max ->
   as_str_result (fst (run_lfun gen_lf_store_str a s [])) = Some (Arena.lf_store_legacy a s).
 Proof. gen_lf_tac. Qed.
 
